@@ -3,9 +3,11 @@
 # Like tools_seedcheck.sh, but applies the seeded change to a scratch worktree of
 # /repo (/tmp/wt/_check, created on demand at /repo's HEAD) and points the engine at
 # it with VERIF_REPO_OVERRIDE, so that /repo itself stays untouched (a thorough run
-# may be using it).  Evidence of such runs goes to a scratch directory.
+# may be using it).  Evidence of such runs goes to a scratch directory.  VERIF_WT
+# names another scratch worktree, so that several streams can run side by side.
 prop=$1; patch=$2; tier=${3:-quick}
-wt=/tmp/wt/_check
+wt=${VERIF_WT:-/tmp/wt/_check}
+tag=$(basename $wt)
 head=$(git -C /repo rev-parse HEAD)
 if [ ! -d $wt ] || [ "$(git -C $wt rev-parse HEAD 2>/dev/null)" != "$head" ]; then
   git -C /repo worktree remove --force $wt 2>/dev/null
@@ -15,8 +17,8 @@ fi
 cd $wt || exit 2
 git checkout -q -- . && git clean -fdq
 git apply "$patch" || { echo "patch does not apply"; exit 2; }
-VERIF_REPO_OVERRIDE=$wt /verif/bin/verifeng check "$prop" --tier "$tier" > /tmp/seedcheckwt_$prop.out 2>&1
+VERIF_REPO_OVERRIDE=$wt /verif/bin/verifeng check "$prop" --tier "$tier" > /tmp/seedcheckwt_${tag}_$prop.out 2>&1
 code=$?
 git checkout -q -- . && git clean -fdq
-grep -E "^(VIOLATION|KNOWN|INCONCLUSIVE|OK)|harness H" /tmp/seedcheckwt_$prop.out | cut -c1-220
+grep -E "^(VIOLATION|KNOWN|INCONCLUSIVE|OK)|harness H" /tmp/seedcheckwt_${tag}_$prop.out | cut -c1-220
 echo "exit=$code"
